@@ -1,0 +1,15 @@
+//go:build verif
+
+package db
+
+import "github.com/wokdav/gopki/generator/config"
+
+// Verification hooks (build tag verif only).
+
+func VerifNeedsUpdate(backend Database, strat UpdateStrategy, alias string, cfg *config.CertificateContent) bool {
+	return needsUpdate(backend, strat, alias, cfg)
+}
+
+func VerifValidateAndMerge(backend Database, alias string) (*config.CertificateContent, error) {
+	return validateAndMerge(backend, alias)
+}
